@@ -16,10 +16,10 @@ _CODES = st.sampled_from([0, 0, 0, 14, 14, 49, 32, 80, 4096])
 def steps(max_steps: int) -> t.Any:
     W = history._weighted
     lazy = st.sampled_from([None, None, None, None, 0, 3, 11, 40])  # None = the application drains everything right away
-    c_call = st.fixed_dictionaries({"op": st.just("c.call"), "what": st.sampled_from(["search", "search", "extended", "extended", "bind"]), "v": _V, "drain": lazy})
+    c_call = st.fixed_dictionaries({"op": st.just("c.call"), "what": st.sampled_from(["search", "search", "extended", "extended", "bind"]), "v": _V, "drain": lazy, "bad-first": history._BAD})
     c_blind = st.fixed_dictionaries({"op": st.just("c.blind"), "what": st.sampled_from(["search", "extended", "bind"]), "v": _V})
     c_unbind = st.fixed_dictionaries({"op": st.just("c.call"), "what": st.just("unbind"), "v": st.just(0), "drain": lazy})
-    s_resp = st.fixed_dictionaries({"op": st.just("s.respond"), "which": st.integers(0, 5), "final": st.booleans(), "code": _CODES, "v": _V, "drain": lazy})
+    s_resp = st.fixed_dictionaries({"op": st.just("s.respond"), "which": st.integers(0, 5), "final": st.booleans(), "code": _CODES, "v": _V, "drain": lazy, "bad-first": history._BAD})
     drain = st.fixed_dictionaries({"op": st.just("drain"), "who": st.sampled_from(["c", "s"]), "amount": st.sampled_from([None, None, 1, 7, 25])})
     s_notice = st.fixed_dictionaries({"op": st.just("s.notice"), "which": st.integers(0, 5), "code": _CODES, "v": _V})
     s_blind = st.fixed_dictionaries({"op": st.just("s.blind"), "kind": st.sampled_from(["bind", "entry", "ref", "done", "extended"]),
@@ -155,6 +155,24 @@ def run(case: t.Sequence[t.Dict[str, t.Any]], ctx: Ctx) -> t.List[Violation]:
             recv_model.incoming(a["kind"], a["id"], (a.get("result") or {}).get("code", 0), a.get("name") if a["kind"] == "extendedResp" else None)
         return None
 
+    def failed_attempt(so: t.Any, side: str, meth: str, kw: t.Dict[str, t.Any], i: int, step: t.Any) -> t.Optional[Violation]:
+        # the application first makes the call with an argument that cannot be encoded: it fails and is a no-op
+        before = history._peek(so)
+        st0 = sess.state(so)
+        ctx.event("failed-attempt-before-call")
+        try:
+            getattr(so, meth)(**kw)
+        except BaseException:
+            pass
+        else:
+            return Violation(f"{side}:call-with-unencodable-argument-accepted", f"step {i} {step!r}: {meth}({kw!r})")
+        if history._peek(so) != before:
+            return Violation(f"{side}:failed-call-left-bytes", f"step {i} {step!r}: {meth}({kw!r})")
+        st1 = sess.state(so)
+        if st1 != st0 and not (st0 == "NEW" and st1 == "OPEN"):
+            return Violation(f"{side}:failed-call-changed-state", f"step {i} {step!r}: {st0} -> {st1}")
+        return None
+
     for i, step in enumerate(case):
         op = step["op"]
         v: t.Optional[Violation] = None
@@ -166,6 +184,11 @@ def run(case: t.Sequence[t.Dict[str, t.Any]], ctx: Ctx) -> t.List[Violation]:
                 continue  # applications only make calls their session accepts; blind steps only when a refusal is expected
             meth, kw, exp = history.client_call_spec(what, step["v"])
             pending_before = history._peek(J.c) if blind else b""
+            if step.get("bad-first") and not blind and what != "unbind":
+                v = failed_attempt(J.c, "client", meth, history.client_call_spec(what, step["v"], True)[1], i, step)
+                if v is not None:
+                    out.append(v)
+                    break
             try:
                 r = getattr(J.c, meth)(**kw)
             except LDAPError as e:
@@ -218,6 +241,11 @@ def run(case: t.Sequence[t.Dict[str, t.Any]], ctx: Ctx) -> t.List[Violation]:
                 if blind == verdict.accepted:
                     continue
                 pending_before = history._peek(J.s) if blind else b""
+                if step.get("bad-first") and not blind:
+                    v = failed_attempt(J.s, "server", meth, history.server_call_spec(kind, mid, step["code"], step["v"], True)[1], i, step)
+                    if v is not None:
+                        out.append(v)
+                        break
                 try:
                     getattr(J.s, meth)(**kw)
                 except LDAPError as e:
